@@ -49,37 +49,45 @@ theorem own_definition_wins (m : Function) (isInternalClass : Bool) (already : L
 
 /-- the set handed to the inlining of the private bases (`n03_ownNames c`, see `C03.class_log_shape`: the
     inlined part of the block of `c` is `n03_internalLog env fuel sc (n03_ownNames c)`) contains exactly the
-    names of the emitted attributes and of the emitted own methods -/
+    names of the emitted attributes, of the emitted own methods and of the public inner classes -/
 theorem own_names (c : Class) (n : String) :
     n ∈ n03_ownNames c ↔
       (∃ a ∈ c.attributes, a.isPublic = true ∧ isTypeVarType a.type = false ∧ a.name = n) ∨
-      (∃ m ∈ c.methods, m.isPublic = true ∧ m.name = n) := by
+      (∃ m ∈ c.methods, m.isPublic = true ∧ m.name = n) ∨
+      (∃ ic ∈ c.classes, ic.isPublic = true ∧ ic.name = n) := by
   unfold n03_ownNames
-  rw [n03_mem_unionSet, n03_mem_attrNames, n03_mem_methNames]
+  rw [n03_mem_unionSet, n03_mem_unionSet, n03_mem_attrNames, n03_mem_methNames, or_assoc]
+  have hic : n ∈ (c.classes.filter (·.isPublic)).map (·.name) ↔
+      ∃ ic ∈ c.classes, ic.isPublic = true ∧ ic.name = n := by
+    simp only [List.mem_map, List.mem_filter, and_assoc]
+  rw [hic]
   constructor
-  · rintro (⟨a, ha, hs, hn⟩ | ⟨m, hm, hs, hn⟩)
+  · rintro (⟨a, ha, hs, hn⟩ | ⟨m, hm, hs, hn⟩ | h)
     · have : a.isPublic = true ∧ isTypeVarType a.type = false := by simpa [n03_attrShown] using hs
       exact Or.inl ⟨a, ha, this.1, this.2, hn⟩
-    · right
+    · right; left
       refine ⟨m, hm, ?_, hn⟩
       by_contra hp
       have : methodSkipped m false [] = true := (n03_methodSkipped_public m []).2 (Or.inl (by simpa using hp))
       rw [hs] at this; cases this
-  · rintro (⟨a, ha, h1, h2, hn⟩ | ⟨m, hm, hp, hn⟩)
+    · exact Or.inr (Or.inr h)
+  · rintro (⟨a, ha, h1, h2, hn⟩ | ⟨m, hm, hp, hn⟩ | h)
     · exact Or.inl ⟨a, ha, by simp [n03_attrShown, h1, h2], hn⟩
-    · right
+    · right; left
       refine ⟨m, hm, ?_, hn⟩
       cases hs : methodSkipped m false []
       · rfl
       · rcases (n03_methodSkipped_public m []).1 hs with h | h
         · rw [hp] at h; cases h
         · cases h
+    · exact Or.inr (Or.inr h)
 
-/-- these ARE the sets `createClassAttributeString` / `createClassMethodString` return in the run -/
+/-- this IS the set `createClassString` builds in the run: the sets `createClassAttributeString` /
+    `createClassMethodString` return, and the names of the public inner classes -/
 theorem own_names_in_run (env : Env) (c : Class) (inner : String) (st st' st'' : St) (ra rm : String × List String)
     (h1 : createClassAttributeString env c.attributes inner st = .ok (ra, st'))
     (h2 : createClassMethodString env c.methods inner false [] st' = .ok (rm, st'')) :
-    unionSet ra.2 rm.2 = n03_ownNames c := by
+    unionSet (unionSet ra.2 rm.2) ((c.classes.filter (·.isPublic)).map (·.name)) = n03_ownNames c := by
   rw [(n03_createClassAttributeString_tr env c.attributes inner st ra st' h1).1,
     (n03_createClassMethodString_tr env c.methods inner false [] st' rm st'' h2).1]
   rfl
@@ -306,6 +314,29 @@ example : (n03_chain xEnv (classFuel xEnv - 1) xC.superclasses).map (·.map (·.
 
 /-- and the theorem's list is what the run logged -/
 example : (n03_inheritedMeths (n03_ownNames xC) [xA, xB]).map (·.id) = ["pkg/mod/_A/bar", "pkg/mod/_B/baz"] := by
+  decide +kernel
+
+/-! a public inner class hides an inherited member of the same name: `C` has the public inner class `foo`,
+    its private base `_B` has a method `foo` — the method is neither logged nor printed (`bar` is) -/
+
+private def zB : Class :=
+  { id := "pkg/mod/_B", name := "_B", isPublic := false,
+    methods := [{ id := "pkg/mod/_B/foo", name := "foo", isPublic := true },
+                { id := "pkg/mod/_B/bar", name := "bar", isPublic := true }] }
+private def zFoo : Class := { id := "pkg/mod/C/foo", name := "foo", isPublic := true }
+private def zC : Class :=
+  { id := "pkg/mod/C", name := "C", isPublic := true, superclasses := ["pkg.mod._B"], classes := [zFoo] }
+private def zEnv : Env := { api := { package := "pkg", classes := [zC, zB, zFoo] }, safe := true }
+
+example : n03_ownNames zC = ["foo"] := by decide +kernel
+
+example :
+    (match createClassString zEnv 5 zC "" true {} with
+      | .ok (t, st') => (t, st'.log)
+      | .error _ => ("", [])) =
+    ("class C() {\n    @PythonName(\"foo\")\n    class Foo()\n\n    // TODO Result type information missing.\n    @Pure\n    fun bar()\n}",
+     [("class", "pkg/mod/C"), ("class", "pkg/mod/C/foo"), ("endclass", "pkg/mod/C/foo"),
+      ("fun", "pkg/mod/_B/bar"), ("endclass", "pkg/mod/C")]) := by
   decide +kernel
 
 /-! a moved declaration: `f` is re-exported by the package `pkg` (shorter path) — logged `moved` in its module,
